@@ -26,7 +26,8 @@ void VFN(vf_log)(vf_i32 code, vf_i32 arg) {
     else if (c < 4000) cls = VF_M_G;
     else if (c < 5000) cls = VF_M_N;
     else if (c < 6000) cls = VF_M_C;
-    else cls = VF_M_F;
+    else if (c < 7000) cls = VF_M_F;
+    else cls = VF_M_Q;
     if (!(vf_projmask & cls)) return;
   }
   VF_CHECK(vf_nlog < VF_MAXLOG, "bound:log capacity exceeded");
@@ -37,6 +38,12 @@ void VFN(vf_log)(vf_i32 code, vf_i32 arg) {
 vf_i32 VFN(vf_guard)(vf_i32 site) {
   uint32_t v = (vf_gmask >> (site & 31)) & 1u;
   VFN(vf_log)((vf_i32)(3000 + 2 * site + v), 0);
+  return (vf_i32)v;
+}
+
+vf_i32 VFN(vf_guardc)(vf_i32 site) {
+  uint32_t v = (vf_gmask >> (site & 31)) & 1u;
+  VFN(vf_log)((vf_i32)(7000 + 2 * site + v), 0);
   return (vf_i32)v;
 }
 
